@@ -76,7 +76,7 @@ theorem find_split {ps : List Pair} {t : String} {p : Pair} (hn : (ps.map (·.ta
     rw [List.nodup_cons] at this
     exact this.1 (by rw [hp', ← heq]; exact List.mem_map_of_mem hq)
 
-theorem find_of_mem {ps : List Pair} {t : String} (hn : (ps.map (·.target)).Nodup) (ht : t ∈ ps.map (·.target)) :
+theorem find_of_mem {ps : List Pair} {t : String} (ht : t ∈ ps.map (·.target)) :
     ∃ p, ps.find? (fun q => decide (q.target = t)) = some p := by
   cases h : ps.find? (fun q => decide (q.target = t)) with
   | some p => exact ⟨p, rfl⟩
